@@ -1031,6 +1031,29 @@ void dfs( int sidx, cdsmc::Scenario const& sc, std::vector<Dev>& devs, int used,
     if ( x.used != used )
         die( 2, "nondeterminism", "cost of the replayed prefix is %d, expected %d", x.used, used );
     {
+        // self-check (CDSMC_CHECK_DET=1): run every schedule a second time and compare what the scheduler saw
+        static int check_det = getenv( "CDSMC_CHECK_DET" ) ? atoi( getenv( "CDSMC_CHECK_DET" )) : 0;
+        if ( check_det ) {
+            // shift the heap layout between the two runs: behaviour must not depend on addresses
+            static std::vector<void*> junk; junk.push_back( malloc( size_t( 24 + ( junk.size() * 40 ) % 700 ))); if ( junk.size() > 64 ) { for ( void* j : junk ) free( j ); junk.clear(); }
+            ExecOut y; execute( sc, devs, bound, y );
+            bool same = y.used == x.used && y.points == x.points && y.trace.size() == x.trace.size() && y.explore_steps == x.explore_steps;
+            for ( size_t i = 0; same && i < x.trace.size(); ++i )
+                same = x.trace[i].point == y.trace[i].point && x.trace[i].reason == y.trace[i].reason && x.trace[i].mask == y.trace[i].mask && x.trace[i].selfcost == y.trace[i].selfcost && x.trace[i].cur == y.trace[i].cur;
+            if ( !same ) {
+                fprintf( stderr, "NONDET: scenario %s schedule [%s]: first run used=%d points=%u steps=%llu trace=%zu; second run used=%d points=%u steps=%llu trace=%zu\n", sc.id.c_str(), devs_to_string( devs ).c_str(),
+                    x.used, x.points, (unsigned long long) x.explore_steps, x.trace.size(), y.used, y.points, (unsigned long long) y.explore_steps, y.trace.size());
+                for ( size_t i = 0; i < x.trace.size() && i < y.trace.size(); ++i )
+                    if ( x.trace[i].point != y.trace[i].point || x.trace[i].mask != y.trace[i].mask || x.trace[i].selfcost != y.trace[i].selfcost || x.trace[i].reason != y.trace[i].reason ) {
+                        fprintf( stderr, "  first difference at trace record %zu: point %u/%u reason %d/%d cur %d/%d mask %x/%x selfcost %d/%d\n", i, x.trace[i].point, y.trace[i].point, x.trace[i].reason, y.trace[i].reason,
+                            x.trace[i].cur, y.trace[i].cur, x.trace[i].mask, y.trace[i].mask, x.trace[i].selfcost, y.trace[i].selfcost );
+                        break;
+                    }
+                die( 2, "nondeterminism", "two runs of the same schedule differ (CDSMC_CHECK_DET)" );
+            }
+        }
+    }
+    {
         static long trace_long = getenv( "CDSMC_TRACE_LONG" ) ? atol( getenv( "CDSMC_TRACE_LONG" )) : 0;
         if ( trace_long > 0 && long( x.explore_steps ) > trace_long )
             fprintf( stderr, "LONG execution: %llu explored steps, scenario %s, schedule: %s\n", (unsigned long long) x.explore_steps, sc.id.c_str(), devs_to_string( devs ).c_str());
